@@ -38,6 +38,13 @@ func genDataset(r *gen.Rand, name string, wide bool) *Dataset {
 	seen := map[string]bool{}
 	span := int64(r.Range(20, 90)) // grid of seconds
 	twoClusters := r.Chance(1, 3)
+	// one data set in four starts at the epoch: the line protocol refuses negative timestamps (nextTimestamp: digits only), so
+	// stored points cannot lie before 1970, but the time ranges of the statements over such a data set do (fill ranges start up
+	// to 4 s before the first point): windows before the epoch and straddling 0 are computed for the filled rows
+	base := int64(baseT)
+	if r.Chance(1, 4) || name == "g2" { // stratified: every run has at least one data set at the epoch
+		base = int64(r.Range(0, 3)) * sec
+	}
 	for len(ds.Series) < nser {
 		tg := []int{r.Intn(len(tagVals[0])), r.Intn(len(tagVals[1]))}
 		if tg[0] == 0 && tg[1] == 0 {
@@ -61,7 +68,7 @@ func genDataset(r *gen.Rand, name string, wide bool) *Dataset {
 		}
 		ts := map[int64]bool{}
 		for i := 0; i < nrows; i++ {
-			t := baseT + int64(r.Intn(int(span)))*sec
+			t := base + int64(r.Intn(int(span)))*sec
 			if twoClusters && r.Chance(1, 3) {
 				t += 2 * week
 			}
@@ -441,6 +448,9 @@ func genQuery0(r *gen.Rand, ds *Dataset) *Query {
 			start := lo + int64(r.Intn(int((hi-lo)/sec)+1))*sec - int64(r.Intn(5))*sec
 			if r.Chance(1, 2) {
 				start = lo - int64(r.Intn(4))*sec
+			}
+			if lo < 10*sec && r.Chance(2, 3) {
+				start = -int64(r.Range(1, 200)) * sec / 2 // data set at the epoch: the range begins before 1970
 			}
 			end := start + int64(r.Range(1, 100))*sec
 			if r.Chance(1, 3) {
